@@ -3,8 +3,10 @@
 //! choices (stream behaviour, arrival orders, budgets, CPU dispatch, consumer histories)
 //! drawn from one seed.
 
+mod c05;
 mod c16;
 mod c18;
+mod c20;
 mod ktypes;
 
 use simcore::driver::{self, Harness, Opts};
@@ -33,10 +35,17 @@ fn main() {
         println!("{:016x}", c16::hashn_family_digest(seed, 400));
         return;
     }
+    if check == "c20-file-child" {
+        std::process::exit(c20::file_child(&args[2]));
+    }
     let opts = Opts::from_args(&args[2..]);
     let code = match check {
+        "c05-budget" => run(c05::C05, &opts),
+        "c05-unhooked" => c05::unhooked(&opts),
         "c16-ingest" => run(c16::C16, &opts),
         "c16-xproc" => c16::xproc(&opts),
+        "c20-serde" => run(c20::SerdeCheck, &opts),
+        "c20-export" => run(c20::ExportCheck, &opts),
         "c18-consumer" => run(c18::Consumer, &opts),
         "c18-mphf-serial" => run(c18::MphfSerial, &opts),
         _ => {
